@@ -126,7 +126,9 @@ class BinningConfig(BaseConfig, Immutable):
             edges = the_dict.pop("edges")
             closed = the_dict.pop("closed")
             binning = Binning(edges, closed=closed)
-            return cls(binning, **the_dict)
+            for key in ("zmin", "zmax", "num_bins", "method"):
+                the_dict.pop(key, None)  # not used with custom bin edges
+            return cls(binning, method=BinMethod.custom, **the_dict)
 
         return cls.create(**the_dict, cosmology=cosmology)
 
